@@ -596,7 +596,7 @@ def hardlink_case(rng, via, comp, nohl=False):
         # every link line precedes its target; groups of 2..5 names for every linkable type; chains of three links; links in
         # other directories than the target, in implicit and explicit ones; a target that carries xattrs
         lk = lambda p, to: {"t": "link", "p": p, "m": rng.choice([0, 0o777, 0o644]), "u": rng.choice([0, 7]), "g": rng.choice([0, 9]), "to": to}
-        L = [lk("/0/first", "/m/file"), lk("/z/chain3", "/z/chain2"), lk("/z/chain2", "/a/chain1"), lk("/a/chain1", "/m/file"), lk("/m/zz", "m/file"),
+        L = [lk("/0/first", "/m/file"), lk("/z/chain3", "/z/chain2"), lk("/z/chain2", "/a/chain1"), lk("/a/chain1", "/m/./file"), lk("/m/zz", "m//file"),
              lk("/l_sl", "/m/sl"), lk("/0/l_sl2", "/l_sl"), lk("/l_chr", "/m/chr"), lk("/l_blk", "/m/blk"), lk("/0/l_fifo", "/m/fifo"), lk("/l_sock", "/m/sock"),
              lk("/a/l_empty", "/m/empty"), lk("/a/l_big", "/m/big"), lk("/a/l_big2", "/a/l_big"),
              {"t": "dir", "p": "/a", "m": 0o700, "u": 1, "g": 1},
@@ -810,6 +810,9 @@ def refusal_cases(rng, thorough):
     c = ids_limit_case(rng, 65536, first=1)        # ids 1..65536 and 0 for the directories: the 65536th id is a uid
     c["kind"], c["name"] = "refusal", "ids-65537"; c["opts"]["d"] = None; out.append(c)
     idc(40000, "ids-40000-wide-accepted", first=70000, stride=107371)
+    # 65535 ids on the pipes, the 65536th is the *uid* of the implicit directories and the root (they are serialised after all pipes;
+    # their gid is an old id): only the check behind the uid lookup in serialize_tree_node can refuse this one
+    c = ids_limit_case(rng, 65535); c["kind"], c["name"] = "refusal", "ids-65536-uid-of-directories"; c["opts"]["d"] = {"uid": 2000000000, "gid": 0}; out.append(c)
     if thorough:
         c = ids_case(rng, 65535); c["kind"], c["name"] = "refusal", "ids-65535-one-directory-accepted"; out.append(c)
         c = ids_case(rng, 65536); c["kind"], c["name"] = "refusal", "ids-65536-one-directory"; out.append(c)
